@@ -2220,6 +2220,31 @@ fn gen_and_run(args: &Args, out: &mut Out, ctx: &mut Ctx) {
                     }
                 }
             }
+            if zstd {
+                // a compressed stream made of several zstd frames back to back decodes to their concatenation
+                let cut = n / 3;
+                let mut wb = zstd_of(&logical[..cut]);
+                ZSTD_LEVEL.store(*rng.pick(&[1, 19]), Ordering::Relaxed);
+                wb.extend_from_slice(&zstd_of(&logical[cut..]));
+                for loe in [false, true] {
+                    let mut sc = make_script(p, false, &wb, &[13, 29], None, loe);
+                    sc.zstd = true;
+                    sc.dec = dec_for(&sc);
+                    sc.dest = *rng.pick(&[Dest::None, Dest::Old]);
+                    sc.trailer = if p.has_trailer() { 2 } else { 0 };
+                    ctx.exec_script(out, &next("b"), &sc, 0);
+                }
+            }
+            if p.has_trailer() {
+                // trailers longer than any internal buffer (8 KiB, 64 KiB) inside a stream that is longer still
+                let big = gen_bytes(5 + zstd as u8, 70_000 + rng.below(100) as usize);
+                for t in [8192usize, 65535, 65536, 65537, 69_000] {
+                    let mut sc = make_script(p, zstd, &big, &[30_000, 9_000], None, rng.chance(1, 2));
+                    sc.dest = *rng.pick(&[Dest::None, Dest::Old]);
+                    sc.trailer = t;
+                    ctx.exec_script(out, &next("b"), &sc, 0);
+                }
+            }
             if p.verifies() {
                 for kind in 1..=4u8 {
                     for fault in [None, Some((1usize, Resp::Error))] {
